@@ -5,7 +5,7 @@
    The composition "the machine emits exactly plan packets + at most one ERR between two reads" is tied to
    the code by the lock-step runs (every implementation response is run through the grammar inside Coq). *)
 From Coq Require Import List Arith NArith Lia Bool.
-From MM Require Import Lib.Bytes Model.Conn Model.Resp Proofs.RespProofs Proofs.C10Proofs Gen.FactsConn Gen.FactsPackets.
+From MM Require Import Lib.Bytes Model.Conn Model.Resp Proofs.RespProofs Proofs.C10Proofs Gen.FactsConn Gen.FactsPackets Model.Packets Proofs.PacketProofs.
 Import ListNotations.
 Open Scope N_scope.
 
@@ -75,3 +75,27 @@ Example c03_seq_wrap :
                             25; 26; 27; 28; 29; 30; 31; 32; 33; 34; 35; 36; 37; 38; 39; 40; 41; 42; 43; 44; 45; 46; 47] /\
   accepts true RKQuery (map snd (skipn 2 pk)) = true.
 Proof. vm_compute. split; reflexivity. Qed.
+
+(* ---- the packets themselves, byte for byte (Model/Packets.v): what the server encodes, a client decodes --------------- *)
+Theorem c03_packet_source_shape :
+  packets_make_ok_ok = true /\ packets_make_eof_ok = true /\ packets_make_error_ok = true /\
+  packets_make_column_definition_41_ok = true /\ packets_make_handshake_v10_ok = true /\ types_str_fixed_ok = true /\
+  types_str_null_ok = true /\ types_str_len_ok = true /\ types_str_rest_ok = true /\ types_uint_1_ok = true /\ types_uint_2_ok = true /\
+  types_uint_4_ok = true /\ errors_get_sqlstate_ok = true.
+Proof. repeat split; reflexivity. Qed.
+
+Theorem c03_ok_packet : forall c eof aff last status warn rest,
+  protocol_41 c = true -> aff < 2 ^ 64 -> last < 2 ^ 64 -> status < 65536 -> warn < 65536 ->
+  dec_ok (enc_ok c eof aff last status warn ++ rest) = Some (eof, aff, last, status, warn, rest).
+Proof. exact ok_roundtrip. Qed.
+Theorem c03_eof_packet : forall c warn status, protocol_41 c = true -> warn < 65536 -> status < 65536 ->
+  dec_eof (enc_eof c warn status) = Some (warn, status).
+Proof. exact eof_roundtrip. Qed.
+Theorem c03_err_packet : forall c code sqlstate msg, protocol_41 c = true -> code < 65536 -> len sqlstate = 5 ->
+  dec_err (enc_err c code sqlstate msg) = Some (code, sqlstate, msg).
+Proof. exact err_roundtrip. Qed.
+Theorem c03_column_count_packet : forall c n rest, optional_metadata c = false -> n < 2 ^ 64 ->
+  read_uint_len (enc_colcount c n ++ rest) = Some (n, rest).
+Proof. exact colcount_roundtrip. Qed.
+Theorem c03_column_definition_packet : forall cd rest, coldef_wf cd -> dec_coldef (enc_coldef cd None ++ rest) = Some (cd, rest).
+Proof. exact coldef_roundtrip. Qed.
